@@ -42,7 +42,7 @@ pub fn greedy_ascii_witness_and_score<const H: usize, const N: usize, const STAR
     assert!(spec_witness(ascii(&i.hay), ascii(&i.needle), &i.cfg, &got), "indices are a valid witness");
     assert!(got[0] as usize >= START && (got[N - 1] as usize) < H);
     assert!(r.unwrap() as u32 == spec_score(ascii(&i.hay), &i.cfg, i.kind, &got), "score == fzf scheme on the reported alignment");
-    kani::cover!(got[0] as usize > START);
+    kani::cover!(H - START == N || got[0] as usize > START);
     std::mem::forget(m);
 }
 
